@@ -348,6 +348,7 @@ def _xfilter(accumulator, test_range, condition, operating_range):
                 eq = operator == '='
                 f = lambda v: isinstance(v, str) and bool(match(v)) == eq
                 b = np.vectorize(f, otypes=[bool])(test_range['raw'])
+                b &= ~test_range['blank']  # A blank cell is not a text.
                 try:
                     return accumulator(operating_range[b])
                 except FoundError as ex:
@@ -387,6 +388,8 @@ def _xfilter(accumulator, test_range, condition, operating_range):
         b = np.vectorize(check, otypes=[bool])(test_range['num'])
     else:
         b = np.vectorize(check, otypes=[bool])(test_range['raw'])
+        if condition != '':
+            b &= ~test_range['blank']  # A blank cell is not a text.
     try:
         return accumulator(operating_range[b])
     except FoundError as ex:
@@ -399,7 +402,8 @@ _xfilter = np.vectorize(_xfilter, otypes=[object], excluded={0, 1, 3})
 def xfilter(accumulator, test_range, condition, operating_range=None):
     operating_range = test_range if operating_range is None else operating_range
     # noinspection PyTypeChecker
-    test_range = {'raw': replace_empty(test_range, '')}
+    blank = np.asarray(test_range, object) == np.array(sh.EMPTY, dtype=object)
+    test_range = {'raw': replace_empty(test_range, ''), 'blank': blank}
     res = _xfilter(accumulator, test_range, condition, operating_range)
     return res.view(Array)
 
